@@ -2,7 +2,7 @@
     appendix B): a case is a flat list of naturals; the result is a list of
     lines of naturals. The parser is Gallina so that the extracted run and the
     in-Coq [vm_compute] run share it. *)
-From MB Require Import Model.Framework Model.Validate.
+From MB Require Import Model.Framework Model.Validate Model.Thresholds.
 Open Scope N_scope.
 
 Definition parser (A : Type) := list N -> option (A * list N).
@@ -198,7 +198,26 @@ Definition run_scase (l : list N) : list (list N) :=
   | _ => [[99]]
   end.
 
-(** entry point: tag 1 = framework case, 2 = validation case, 3 = sampling case *)
+(** transition-vector case: number of states and one vector; output: the
+    validation verdict and, per target, the number of draws k in [0, 2^23)
+    that select this or an earlier target (clipped running maximum of the
+    integer thresholds) *)
+Fixpoint cumulative (th : list Z) (acc : Z) : list N :=
+  match th with
+  | [] => []
+  | x :: t => let a := Z.max acc (Z.min (Z.max x 0) 8388608) in Z.to_N a :: cumulative t a
+  end.
+
+Definition run_tcase (l : list N) : list (list N) :=
+  match (n <~ pnum ;; v <~ plist ptrans ;; pret (n, v)) l with
+  | Some ((n, v), []) =>
+      if validate_vector n v [] f32_zero then [1%N :: cumulative (map thr (sums v f32_zero)) 0]
+      else [[0%N]]
+  | _ => [[99]]
+  end.
+
+(** entry point: tag 1 = framework case, 2 = validation case, 3 = sampling
+    case, 4 = transition-vector case *)
 Definition run_wire (l : list N) : list (list N) :=
   match l with
   | 1 :: rest =>
@@ -208,5 +227,6 @@ Definition run_wire (l : list N) : list (list N) :=
       end
   | 2 :: rest => run_vcase rest
   | 3 :: rest => run_scase rest
+  | 4 :: rest => run_tcase rest
   | _ => [[98]]
   end.
